@@ -8,7 +8,7 @@ fail=0
 for d in seeded/$pat/; do
   id=$(basename "$d"); prop=${id%%-*}
   if ! git -C /repo apply --check "$PWD/$d/patch.diff" 2>/dev/null; then
-    if ! git -C /repo apply --3way "$PWD/$d/patch.diff" >/dev/null 2>&1; then echo "$id: PATCH DOES NOT APPLY"; git -C /repo checkout -- . ; git -C /repo reset -q; fail=1; continue; fi
+    if ! git -C /repo apply --3way "$PWD/$d/patch.diff" >/dev/null 2>&1; then echo "$id: PATCH DOES NOT APPLY"; git -C /repo reset -q --hard HEAD; fail=1; continue; fi
     git -C /repo reset -q
   else
     git -C /repo apply "$PWD/$d/patch.diff"
